@@ -65,8 +65,16 @@ class AxisOperationBase(OperableAxis, ABC):
         pass
 
 
+def _assert_operand(operand: object) -> None:
+    """Only integers and operable axes take part in axis arithmetic (no constant or anonymous axes)."""
+    if not isinstance(operand, OperableAxis | int):
+        msg = f"Unsupported operand for axis arithmetic: {operand!r}"
+        raise TypeError(msg)
+
+
 class UnaryAxisOperationBase(AxisOperationBase):
     def __init__(self, axis: Group | OperableAxis | ComputedAxis | int) -> None:
+        _assert_operand(axis)
         self._axis = axis if isinstance(axis, OperableAxis | ComputedAxis | Group) else LiteralAxis(axis)
 
 
@@ -82,6 +90,7 @@ class Group(UnaryAxisOperationBase):
         self,
         grouped_op: OperableAxis | ComputedAxis | int,
     ) -> None:
+        _assert_operand(grouped_op)
         self._operators = grouped_op
 
     def __str__(self) -> str:
@@ -94,6 +103,8 @@ class BinaryAxisOperationBase(AxisOperationBase):
         lhs: Group | OperableAxis | ComputedAxis | int,
         rhs: Group | OperableAxis | ComputedAxis | int,
     ) -> None:
+        _assert_operand(lhs)
+        _assert_operand(rhs)
         self._lhs = lhs if isinstance(lhs, OperableAxis | ComputedAxis | Group) else LiteralAxis(lhs)
         self._rhs = rhs if isinstance(rhs, OperableAxis | ComputedAxis | Group) else LiteralAxis(rhs)
 
